@@ -36,7 +36,7 @@ LEVEL = "fault_enumeration"
 RULE = ("complete table: every errno of the connection-loss set, EAGAIN/EWOULDBLOCK, five other errnos, and for TLS "
         "WANT_READ, WANT_WRITE, EOF, ZERO_RETURN and a protocol SSLError, raised from send, recv and do_handshake "
         "(connect_ex: returned or raised) of Client, ClientTls, Incomer, IncomerTls, reached directly (send()/receive()) "
-        "and through serviceTxes()/serviceReceives(), after 0, 1 or 2 successful operations; the same errors from "
+        "and through serviceTxes()/serviceReceives(), after 0..2 (thorough 0..5) successful operations; the same errors from "
         "sendto/recvfrom under SocketUdpNb, UdpStack (real SocketUdpNb on a socket double) and GramStack (handler "
         "double); distinct = distinct table row; every row injects one error, so every row is non-trivial")
 META = {"engine": "D I/O doubles", "technique": "exhaustive classification table on socket doubles",
@@ -429,15 +429,16 @@ def run(ctx):
     console = getConsole()
     console.reinit(verbosity=console.Wordage.mute)      # connect errors are reported with console.terse
     ctx.exhaustive = True
+    priors = ctx.pick((0, 1, 2), (0, 1, 2, 3, 4, 5))
     for cls in ("Client", "ClientTls", "Incomer", "IncomerTls"):
         tls = cls.endswith("Tls")
         for op in ("send", "recv"):
             for via in ("direct", "service"):
-                for prior in (0, 1, 2):
+                for prior in priors:
                     for cat, item in table(tls):
                         stream_case(ctx, cls, op, via, prior, cat, item)
     for cls in ("ClientTls", "IncomerTls"):
-        for prior in (0, 1, 2):
+        for prior in priors:
             rows = [("block", WANT_READ), ("block", WANT_WRITE), ("loss", SSLE("eof"))]
             rows += [("loss", ERR(c)) for c in LOSS_ERRNOS]
             rows += [("other", SSLE("ssl")), ("other", ERR(errno.EBADF)), ("other", ERR(errno.EINVAL))]
@@ -452,7 +453,7 @@ def run(ctx):
             connect_case(ctx, cls, cat, item)
     for kind in ("GramStack", "UdpStack"):
         for op in ("send", "receive"):
-            for prior in (0, 1, 2):
+            for prior in priors:
                 rows = [("loss", ERR(c)) for c in LOSS_ERRNOS] + [("other", ERR(c)) for c in OTHER_ERRNOS]
                 if kind == "UdpStack" or op == "send":
                     rows += [("block" if op == "receive" else "unjudged", WOULDBLOCK)]
